@@ -115,6 +115,16 @@ def r17_4(ctx):
         ok = False
         def is_rebuild(e, req):
             return e[0] == "call" and e[1] == "http::request::Request::rebuild_with_config" and mentions(e, lambda x: x == req)
+        # on every path (the rebuild also sorts and re-encodes the query: it is not only "apply the flags")
+        n_tr = 0
+        all_paths_ok = True
+        for p_ in Sym(g, copies=True).paths():
+            for e in p_.events:
+                if e[0] == "call" and e[6] is not None and e[6].local and e[6].name == "trace":
+                    n_tr += 1
+                    a_ = e[2][1]
+                    if not (is_rebuild(a_, ("param", 2)) or (a_[0] == "call" and a_[2] and a_[2][-1] == ("param", 2) and a_[1] == LY.ROUTER + "::rebuild_request")):
+                        all_paths_ok = False
         for bi, t, cal in g.calls():
             if cal and cal.local and cal.name == "trace":
                 arg = pv.operand(t["args"][1])
@@ -125,7 +135,7 @@ def r17_4(ctx):
                     if w is not None and w.adt == LY.ROUTER:
                         rets = {p.end[1] for p in Sym(w, copies=True).paths() if p.end[0] == "ret"}
                         ok = len(rets) == 1 and all(is_rebuild(e, ("param", w.argc)) for e in rets)
-        r.ob("trace:normalised-request", ok, g.site, "matcher.trace receives rebuild_with_config(config, request)")
+        r.ob("trace:normalised-request", ok and all_paths_ok and n_tr >= 1, g.site, "matcher.trace receives rebuild_with_config(config, request) on every path")
     ctx.run_rule("R17.4", "same priority key in get_route and get_trace; trace runs on the normalised request", body, floor=5)
 
 
